@@ -378,6 +378,98 @@ theorem recover (P : Proto Q) (sc : Scn) (rp : Reply) (cls : Bytes → Client.Ev
   rw [hrun]
   simp [hcon, hcur, hsent]
 
+/-! ### the client never blocks either -/
+
+/-- a `transport.read(timeout)` in the world never blocks -/
+theorem wRead_not_blocked (P : Proto Q) (sc : Scn) (w : World Q) (t : Nat) :
+    (wRead P sc w (some t)).1 ≠ .blocked := by
+  unfold wRead
+  split
+  · exact ((opRead_spec P sc w.c0 w.now (some t)).2.1 t rfl).2
+  · split <;> simp
+
+theorem wRequest_not_blocked (P : Proto Q) (sc : Scn) (rp : Reply) (w : World Q) (req : Bytes) (t : Nat) :
+    (wRequest P sc rp w req (some t)).1 ≠ .blocked := by
+  unfold wRequest
+  dsimp only
+  split
+  · intro h
+    have := (loss_bounded P sc w.c0 w.now req t).1
+    rw [h] at this
+    rcases this with h | h
+    · exact absurd h (by simp [PRes.allowed])
+    · cases h
+  · split <;> simp
+
+theorem pend_not_blocked (P : Proto Q) (sc : Scn) (cls : Bytes → Client.Ev) (c : CCfg) (w : World Q) (np nt : Nat) :
+    ∀ w', pendLoop P sc cls c w np nt ≠ .done .blocked w' := by
+  fun_induction pendLoop P sc cls c w np nt <;> intro w' <;> simp_all
+  all_goals
+    rename_i w0 _ _ _ h
+    have := wRead_not_blocked P sc w0 c.lim.waiting
+    rw [h] at this
+    exact absurd rfl this
+
+theorem step_not_blocked (P : Proto Q) (sc : Scn) (rp : Reply) (cls : Bytes → Client.Ev) (c : CCfg) (req : Bytes)
+    (w : World Q) (i : Nat) (last : Out) (t : Nat) (ht : c.tmo = some t) :
+    ∀ w', attemptStep P sc rp cls c req w i last ≠ .fin .blocked w' := by
+  intro w'
+  unfold attemptStep
+  have hb := wRequest_not_blocked P sc rp w req t
+  rw [← ht] at hb
+  split
+  · simp
+  · unfold Step.ofRc; split <;> simp
+  · unfold Step.ofRc; split <;> simp
+  · split
+    · split <;> simp
+    · simp
+    · simp
+    · split
+      · rename_i o w2 hp
+        intro h
+        injection h with h1 h2
+        subst h1
+        exact pend_not_blocked P sc cls c _ 1 0 _ hp
+      · simp
+      · unfold Step.ofRc; split <;> simp
+    · simp
+  · rename_i w1 h; rw [h] at hb; exact absurd rfl hb
+  · rename_i r w1 h1 h2 h3 h4 h5 h6
+    intro h
+    injection h with h _
+    cases h
+
+theorem step_next_last (P : Proto Q) (sc : Scn) (rp : Reply) (cls : Bytes → Client.Ev) (c : CCfg) (req : Bytes)
+    (w w1 : World Q) (i : Nat) (last l : Out) (h : attemptStep P sc rp cls c req w i last = .next w1 l) :
+    l = last ∨ ∃ b, l = .missing b := by
+  unfold attemptStep Step.ofRc at h
+  repeat' split at h
+  all_goals (try cases h)
+  all_goals first | exact .inl rfl | exact .inr ⟨_, rfl⟩
+
+/-- client level: with a client timeout `request()` never blocks forever, whatever the peer does, for every
+    max_retry, every scenario and every world state -/
+theorem client_never_blocks (P : Proto Q) (sc : Scn) (rp : Reply) (cls : Bytes → Client.Ev) (c : CCfg) (req : Bytes)
+    (w : World Q) (t : Nat) (ht : c.tmo = some t) : (lossRun P sc rp cls c req w).1 ≠ .blocked := by
+  have key : ∀ (w : World Q) (i : Nat) (last : Out), last ≠ .blocked →
+      (attempts P sc rp cls c req w i last).1 ≠ .blocked := by
+    intro w i last
+    fun_induction attempts P sc rp cls c req w i last with
+    | case1 w i last h => intro hl; exact hl
+    | case2 w i last h o w1 hs =>
+      intro _ hb
+      simp only at hb
+      subst hb
+      exact step_not_blocked P sc rp cls c req w i last t ht w1 hs
+    | case3 w i last h w1 l hs ih =>
+      intro hl
+      apply ih
+      rcases step_next_last P sc rp cls c req w w1 i last l hs with rfl | ⟨b, rfl⟩
+      · exact hl
+      · simp
+  exact key w 0 (.missing false) (by simp)
+
 /-! ### the death / end-of-stream side of the C06 and C07 connection models -/
 
 /-- C06 model (`Doip.block`): when the reader task dies (malformed frame, EOF, reset) while a consumer is blocked on the
